@@ -80,13 +80,35 @@ func sharedRSA() *rsa.PrivateKey {
 // not base64, which DoWithContext rejects before any attempt.
 var hookSecretOK = base64.StdEncoding.EncodeToString([]byte("secret"))
 
-func hooks(base, path, kind string, n int, secret string) []*provisioner.Webhook {
+func hooks(base, path, kind string, n int, secret, certType string) []*provisioner.Webhook {
 	var whs []*provisioner.Webhook
 	for i := 0; i < n; i++ {
 		whs = append(whs, &provisioner.Webhook{ID: fmt.Sprintf("%s%d", path, i), Name: fmt.Sprintf("%s%d", path, i),
-			URL: fmt.Sprintf("%s/%s/%d", base, path, i), Kind: kind, CertType: "ALL", Secret: secret})
+			URL: fmt.Sprintf("%s/%s/%d", base, path, i), Kind: kind, CertType: certType, Secret: secret})
 	}
 	return whs
+}
+
+// hookCertType is the certType attribute the enriching / authorizing webhooks are written with:
+// "ALL" (what the CLI and the admin API write), none at all (a hand-written ca.json; means all),
+// the type of the certificate the operation issues, or the other type (then not consulted).
+func hookCertType(k *Case) string {
+	ssh := strings.HasPrefix(k.Op, "ssh")
+	switch k.CT {
+	case "unset":
+		return ""
+	case "typed":
+		if ssh {
+			return "SSH"
+		}
+		return "X509"
+	case "other":
+		if ssh {
+			return "X509"
+		}
+		return "SSH"
+	}
+	return "ALL"
 }
 
 func newEnv(k *Case) (*Env, error) {
@@ -96,7 +118,8 @@ func newEnv(k *Case) (*Env, error) {
 	if k.Var == "badhook" {
 		secret = "%%% not base64 %%%"
 	}
-	whs := append(hooks(e.srv.URL, "enrich", "ENRICHING", k.E, secret), hooks(e.srv.URL, "authorize", "AUTHORIZING", k.A, secret)...)
+	ct := hookCertType(k)
+	whs := append(hooks(e.srv.URL, "enrich", "ENRICHING", k.E, secret, ct), hooks(e.srv.URL, "authorize", "AUTHORIZING", k.A, secret, ct)...)
 	closed, release := closedAddr()
 	e.closer = append(e.closer, release)
 	// an https endpoint whose certificate the webhook client does not trust
@@ -107,7 +130,7 @@ func newEnv(k *Case) (*Env, error) {
 	tlsSrv.StartTLS()
 	e.closer = append(e.closer, tlsSrv.Close)
 	tr := &faultTransport{rec: e.rec, base: &http.Transport{DisableKeepAlives: true}, closed: closed,
-		untrusted: strings.TrimPrefix(tlsSrv.URL, "https://")}
+		untrusted: strings.TrimPrefix(tlsSrv.URL, "https://"), denyAll: k.Deny}
 
 	// key material is made here (not by the fixture) so that the CAS can be wrapped and, for
 	// SCEP, the intermediate key is an RSA key the SCEP authority can decrypt with
@@ -148,8 +171,8 @@ func newEnv(k *Case) (*Env, error) {
 			Challenges: []provisioner.ACMEChallenge{provisioner.HTTP_01}},
 	}
 	if k.Op == "scep" {
-		all := append(append([]*provisioner.Webhook{}, whs...), hooks(e.srv.URL, "challenge", "SCEPCHALLENGE", k.CH, secret)...)
-		all = append(all, hooks(e.srv.URL, "notify", "NOTIFYING", k.N, secret)...)
+		all := append(append([]*provisioner.Webhook{}, whs...), hooks(e.srv.URL, "challenge", "SCEPCHALLENGE", k.CH, secret, "ALL")...)
+		all = append(all, hooks(e.srv.URL, "notify", "NOTIFYING", k.N, secret, "ALL")...)
 		sp := &provisioner.SCEP{Type: "SCEP", Name: "scep", MinimumPublicKeyLength: 2048, EncryptionAlgorithmIdentifier: 2,
 			Options: &provisioner.Options{Webhooks: all}}
 		if k.CH == 0 {
@@ -182,6 +205,9 @@ func newEnv(k *Case) (*Env, error) {
 	o.Config = func(cfg *config.Config) {
 		if cfg.SSH == nil { // SignSSHAddUser reads config.SSH.AddUserPrincipal / AddUserCommand
 			cfg.SSH = &config.SSHConfig{}
+		}
+		if strings.HasPrefix(k.Var, "admin") { // authority.enableAdmin with the local database: adminDB = nosql admin store
+			cfg.AuthorityConfig.EnableAdmin = true
 		}
 	}
 	if k.CRL {
@@ -544,7 +570,7 @@ func (e *Env) prepare(k *Case) (*httpReq, error) {
 		serial := strconv.FormatUint(crt.Serial, 10)
 		e.extra["serial"] = serial
 		var peer *x509.Certificate
-		if k.Var == "identity" { // the request arrives over mTLS with the host's X.509 identity certificate
+		if strings.HasSuffix(k.Var, "identity") { // the request arrives over mTLS with the host's X.509 identity certificate
 			if peer, _, err = e.issueX509("host.verif.test"); err != nil {
 				return nil, err
 			}
